@@ -18,6 +18,10 @@
 #include "Enum/ELoadBy.hpp"
 #include "Basic/VectorNumT.hpp"
 #include "Basic/VectorT.hpp"
+#include "Basic/VectorHelper.hpp"
+#include <type_traits>
+#include <algorithm>
+#include <functional>
 #include "Neigh/NeighUnique.hpp"
 #include "Estimation/CalcKriging.hpp"
 #include <cmath>
@@ -239,6 +243,7 @@ namespace cow { Value run(const Value& script); }
 #include "hist_cow.hpp"
 #include "hist_neigh.hpp"
 #include "hist_copy.hpp"
+#include "hist_modeledit.hpp"
 
 int main(int argc, char** argv)
 {
@@ -264,6 +269,7 @@ int main(int argc, char** argv)
     else if (mode == "cow") obs = cow::run(sc);
     else if (mode == "neighmemo") obs = nm::run(sc);
     else if (mode == "copy") obs = cp::run(sc);
+    else if (mode == "modeledit") obs = me::run(sc);
     else return 2;
     Value rec = Value::object();
     rec["idx"] = Value(is);
